@@ -14,6 +14,7 @@ import (
 	"strings"
 
 	"github.com/mazrean/kessoku/internal/pkg/collection"
+	"golang.org/x/tools/go/types/typeutil"
 )
 
 // createASTTypeExpr creates an AST type expression from a types.Type and updates existingImports
@@ -320,7 +321,13 @@ func NewGraph(metaData *MetaData, build *BuildDirective, varPool *VarPool) (*Gra
 		returnIndex int
 	}
 
-	fnProviderMap := make(map[string]*fnProvider)
+	// Suppliers are looked up by type identity (types.Identical), not by the spelling of
+	// the type: byte and uint8, rune and int32, an alias and its target are one type.
+	var fnProviderMap typeutil.Map // types.Type -> *fnProvider
+	lookupProvider := func(t types.Type) (*fnProvider, bool) {
+		p, ok := fnProviderMap.At(t).(*fnProvider)
+		return p, ok
+	}
 	declOrder := 0
 
 	// First pass: Process non-struct providers and assign DeclOrder
@@ -342,7 +349,7 @@ func NewGraph(metaData *MetaData, build *BuildDirective, varPool *VarPool) (*Gra
 				}
 				key := t.String()
 
-				if existing, ok := fnProviderMap[key]; ok {
+				if existing, ok := lookupProvider(t); ok {
 					// Allow the same provider to provide multiple types (e.g., concrete and interface)
 					// but still error if different providers try to provide the same type
 					if existing.provider != provider {
@@ -353,10 +360,10 @@ func NewGraph(metaData *MetaData, build *BuildDirective, varPool *VarPool) (*Gra
 					continue
 				}
 
-				fnProviderMap[key] = &fnProvider{
+				fnProviderMap.Set(t, &fnProvider{
 					provider:    provider,
 					returnIndex: groupIndex,
-				}
+				})
 			}
 		}
 	}
@@ -375,8 +382,7 @@ func NewGraph(metaData *MetaData, build *BuildDirective, varPool *VarPool) (*Gra
 			}
 
 			// Find the provider that provides this struct type
-			structTypeKey := structProvider.StructType.String()
-			if _, ok := fnProviderMap[structTypeKey]; !ok {
+			if _, ok := lookupProvider(structProvider.StructType); !ok {
 				deferred = append(deferred, structProvider)
 				continue
 			}
@@ -394,14 +400,14 @@ func NewGraph(metaData *MetaData, build *BuildDirective, varPool *VarPool) (*Gra
 				declOrder++
 
 				fieldTypeKey := field.Type.String()
-				if _, ok := fnProviderMap[fieldTypeKey]; ok {
+				if _, ok := lookupProvider(field.Type); ok {
 					return nil, fmt.Errorf("multiple providers provide %s (field %s conflicts with existing provider)", fieldTypeKey, field.Name)
 				}
 
-				fnProviderMap[fieldTypeKey] = &fnProvider{
+				fnProviderMap.Set(field.Type, &fnProvider{
 					provider:    fieldProvider,
 					returnIndex: 0,
-				}
+				})
 				// Add to build.Providers so it's included in graph processing
 				build.Providers = append(build.Providers, fieldProvider)
 			}
@@ -417,9 +423,7 @@ func NewGraph(metaData *MetaData, build *BuildDirective, varPool *VarPool) (*Gra
 	if build.Return.Type == nil {
 		return nil, fmt.Errorf("return type is nil")
 	}
-	returnTypeKey := build.Return.Type.String()
-
-	returnProvider, ok := fnProviderMap[returnTypeKey]
+	returnProvider, ok := lookupProvider(build.Return.Type)
 	if !ok {
 		n, err := graph.autoAddMissingDependencies(metaData, build.Return.Type, varPool)
 		if err != nil {
@@ -434,7 +438,7 @@ func NewGraph(metaData *MetaData, build *BuildDirective, varPool *VarPool) (*Gra
 	}
 
 	providerNodeMap := make(map[*ProviderSpec]*node)
-	argNodeMap := make(map[string]*node)
+	var argNodeMap typeutil.Map // types.Type -> *node
 	queue := collection.NewQueue[*node]()
 	visited := make(map[*node]bool)
 
@@ -465,12 +469,11 @@ func NewGraph(metaData *MetaData, build *BuildDirective, varPool *VarPool) (*Gra
 			if t == nil {
 				return nil, fmt.Errorf("provider has nil required type at index %d", i)
 			}
-			key := t.String()
 			var (
 				n2       *node
 				srcIndex int
 			)
-			if provider, ok := fnProviderMap[key]; ok {
+			if provider, ok := lookupProvider(t); ok {
 				n2, ok = providerNodeMap[provider.provider]
 				if !ok {
 					n2 = &node{
@@ -483,7 +486,7 @@ func NewGraph(metaData *MetaData, build *BuildDirective, varPool *VarPool) (*Gra
 				}
 
 				srcIndex = provider.returnIndex
-			} else if n2, ok = argNodeMap[key]; ok {
+			} else if n2, ok = argNodeMap.At(t).(*node); ok {
 				srcIndex = 0
 			} else {
 				// Auto-detect missing dependency and create an argument for it
@@ -493,7 +496,7 @@ func NewGraph(metaData *MetaData, build *BuildDirective, varPool *VarPool) (*Gra
 					return nil, fmt.Errorf("auto add missing dependency as argument: %w", err)
 				}
 
-				argNodeMap[key] = n2
+				argNodeMap.Set(t, n2)
 				queue.Push(n2)
 				graph.nodes = append(graph.nodes, n2)
 				srcIndex = 0
